@@ -367,12 +367,12 @@ Proof.
           destruct (write_header cap lower c r disc (t1, ch)) as [s2 [[]|e2]] eqn:E; [|discriminate].
           destruct (Inv_write_header _ _ _ E (proj1 G1)) as [_ W1]. specialize (W1 eq_refl).
           destruct (write_body_frame _ _ _ _ Ew) as (F1 & _). cbn [fst] in F1.
-          eapply Inv_grow; eauto. congruence. congruence. eapply write_soon_grows; eauto.
+          apply (Inv_grow t2 ch2 t2 ch3 I1); [congruence|congruence|eapply write_soon_grows; eauto].
         * intros _. exact K1.
       + destruct P1 as [I1 K1]. split; [|intro X; discriminate X].
         apply write_soon_writes in Ews as [_ Hx]. specialize (Hx e eq_refl).
         destruct I1 as [A B]. split; cbn [fst snd] in *; rewrite Hx; auto.
-    - pose proof (Post_task_write _ _ _ _ Ew G1) as P1. exact P1. }
+    - pose proof (Post_task_write _ _ _ _ Ew G1) as P1. destruct s1. exact P1. }
   destruct ho as [[[s1 o1] c1]|].
   - inversion H; subst. exact Hho.
   - destruct (iterate cap lower c r disc _ _ true s (a_steps a)) as [s1 [u|e]] eqn:Ei.
@@ -382,8 +382,8 @@ Proof.
                          | Some cl => if negb (t_cbw t =? cl)%Z && negb (r_head r) then set_close_on_finish cap lower t else t
                          | None => t end, ch)).
       { destruct (t_clen t); auto. destruct (_ && _); auto. apply Good_scof; auto. }
-      destruct G2. split; auto.
-    + inversion H; subst. eapply Post_iterate; eauto.
+      destruct G2 as [A B]. split; [exact A|intros _; exact B].
+    + destruct s1. inversion H; subst. eapply Post_iterate; eauto.
 Qed.
 
 Lemma Post_wsgi_execute s a : app_ok a -> Good s ->
@@ -413,8 +413,8 @@ Proof.
   apply Good_set_clen. apply Good_scof.
   revert G. apply Good_task_only; try reflexivity.
   intros [H1 H2]. split; cbn [t_status t_rh set_rh set_status].
-  - apply clean_app. split; auto. apply clean_app. split; auto. reflexivity.
-  - apply Forall_app. split; auto. constructor; [|constructor]. split; reflexivity.
+  - apply clean_app. split; [exact E1|]. apply clean_app. split; [reflexivity|exact E2].
+  - apply Forall_app. split; [exact H2|]. constructor; [|constructor]. split; reflexivity.
 Qed.
 
 Lemma Post_task_run s job :
@@ -442,8 +442,7 @@ Proof.
   intros Hj G. unfold task_service.
   pose proof (Post_task_run s job Hj G) as [I _]. cbn zeta in I.
   destruct (x_out (task_run cap lower c r disc s job)) as [u|e]; auto.
-  destruct (is_OSError e); auto. cbn [x_st].
-  destruct (x_st (task_run cap lower c r disc s job)) as [t ch]. exact I.
+  destruct (is_OSError e); auto.
 Qed.
 
 End Run.
